@@ -10,7 +10,7 @@ abbrev Oid := List Nat
 abbrev R := Except String
 
 def hexNat (s : String) : Nat :=
-  s.foldl (fun a c => a * 16 + (if '0' ≤ c ∧ c ≤ '9' then c.toNat - 48 else if 'a' ≤ c ∧ c ≤ 'f' then c.toNat - 87 else c.toNat - 55)) 0
+  s.toList.foldl (fun a c => a * 16 + (if '0' ≤ c ∧ c ≤ '9' then c.toNat - 48 else if 'a' ≤ c ∧ c ≤ 'f' then c.toNat - 87 else c.toNat - 55)) 0
 
 structure Curve where
   name : String
